@@ -61,7 +61,9 @@ ASSUMPTIONS = ["blank nodes do not occur in predicate position (not RDF)",
                "'.'/'..' path segment or containing '/.well-known/genid/' are known finding C14-K2 (skolemize cannot "
                "encode them faithfully); the Lean round-trip theorems assume the urllib contract LabelOk per label",
                "SHA-256 sums used as colour / graph digests do not collide on the generated inputs"]
-TRUSTED = ["harness/c14.py generators, term numbering and canonicalisation", "lean/RV/C14/Drive.lean line protocol and "
+TRUSTED = ["harness/c14.py generators, term numbering and canonicalisation", "driverHashes of RV/C14/Search.lean do not collide "
+           "on the compared graphs (a collision can only produce `none` or a wrong verdict of the canon op, which is "
+           "cross-checked against isoutil and isoDecide in every case)", "lean/RV/C14/Drive.lean line protocol and "
            "string interning", "harness/isoutil.py (cross-validated against the verified isoDecide on every case "
            "small enough for the Lean search, and against isoCheck certificates for relabelled pairs)",
            "urllib.parse.urljoin/urlparse on skolem IRIs (contract stated as hypothesis UrlContract in Props.lean)"]
@@ -862,6 +864,12 @@ def gen_skolem(rng):
         else:
             allb = sorted(bn_of(g))
             sel = rng.sample(allb, rng.randint(1, len(allb)))
+        if rng.random() < 0.5:
+            # reflexive triples: the chosen node is subject AND object of the same triple
+            for b in rng.sample(sel, rng.randint(1, len(sel))):
+                t = [b, rng.choice([P, Q]), b]
+                if t not in g:
+                    g.insert(rng.randrange(len(g) + 1), t)
         case["variant"] = "partial"
         case["sel"] = sel
         case["back"] = rng.choice(["full", "full", "uriref-genid", "uriref-plain"])
@@ -986,6 +994,18 @@ def skolem_line(case):
                                 " ".join(sk_term(x, lits) for t in case["g"] for x in t))
 
 
+CANON_MAX = int(os.environ.get("C14_CANON_MAX", "7"))   # blank nodes per graph given to the exhaustive canonSearch
+
+
+def canon_ok(g1, g2):
+    return max(len(bn_of(g1)), len(bn_of(g2))) <= CANON_MAX
+
+
+def canon_line(g1, g2):
+    a, b, _ = encode_pair(g1, g2)
+    return f"canon {a} | {b}"
+
+
 def pair_model_line(case):
     g1, g2 = case["g1"], case["g2"]
     if small(g1, g2):
@@ -998,7 +1018,9 @@ def pair_model_line(case):
 def model_lines(case):
     if case["kind"] == "pair":
         l = pair_model_line(case)
-        return [l, "diff"] if l else []
+        if not l:
+            return []
+        return [l, "diff"] + ([canon_line(case["g1"], case["g2"])] if canon_ok(case["g1"], case["g2"]) else [])
     if case["kind"] == "skolem":
         return [] if k2_case(case) else [skolem_line(case)]
     if case["kind"] == "exh":
@@ -1018,7 +1040,9 @@ def model_lines(case):
 
 def select_model_obs(case, out):
     if case["kind"] == "pair":
-        return [out[0]] * 4 + ["diff " + out[1]] if out else []
+        if not out:
+            return []
+        return [out[0]] * 4 + ["diff " + out[1]] + (["canon-search-verdict " + out[2]] if len(out) > 2 else [])
     if case["kind"] == "skolem":
         return ["skolem-roundtrip-iso " + out[0]] if out else []
     if case["kind"] == "hist":
@@ -1228,6 +1252,12 @@ def run_pair(case):
         if small(xs, ys):
             xlines.append(iso_line(xs, ys))
             expect.append(v)
+    if line and canon_ok(g1s, g2s):
+        # the unpruned exhaustive search of RV/C14/Search.lean must give the same VERDICT as isoutil (and as rdflib's
+        # pruned `_traces`, compared through obs): its canonical texts are not comparable with rdflib's hashes
+        xlines.append(canon_line(g1s, g2s))
+        expect.append(truth)
+        stats["canon_search_verdicts"] = 1
     if xlines:
         got = drive(xlines)
         stats["oracle_crosschecks"] = len(got)
@@ -1237,6 +1267,8 @@ def run_pair(case):
             raise RuntimeError(f"ORACLE DISAGREEMENT isoutil={expect} lean={got} case={case}")
     if line:
         obs = [b2s(r_iso), b2s(r_eq), b2s(r_dig), b2s(r_can), "diff %s %s %s" % (b2s(d1), b2s(d2), b2s(d3))]
+        if canon_ok(g1s, g2s):
+            obs.append("canon-search-verdict " + b2s(r_can))
     refine_probe(g1s, stats)
     prof = (profile(g1s), profile(g2s))
     nontrivial = any(c > 1 for pr in prof for c in pr)
@@ -1348,6 +1380,8 @@ def run_skolem(case):
         stats["skolem_partial_back_" + case["back"]] = 1
         if any(is_b(t[0]) and t[2] in case["sel"] and t[0] not in case["sel"] for t in gs):
             stats["skolem_partial_skolem_object_of_blank_subject"] = 1
+        if any(t[0] == t[2] and t[0] in case["sel"] for t in gs):
+            stats["skolem_partial_self_loop_on_chosen_node"] = 1
     if "authority" in case:
         stats["skolem_authority_%s" % ("with-path" if sk_args(case)[0].count("/") > 2 and not sk_args(case)[0].endswith("org/") else "host-only")] = 1
         stats["skolem_basepath_%s" % ("absolute" if sk_args(case)[1].startswith("/") else "relative")] = 1
